@@ -7,7 +7,7 @@ LEVEL = 'proof'
 ASSUMPTIONS = ["expected documentation per DESIGN.md appendix A.6: the group of comments (each starting on the line where the previous one ended or on the next line) whose last comment ends on the line directly above the item, provided the group does not start on the line of a preceding token; otherwise none",
                "placements generated: attached group, detached group (blank line), trailing comment on the previous item's last line, comment inside the previous body on the line above, none, and detached+attached; at any line including the first three"]
 
-PLACEMENTS = ['none', 'none', 'attached', 'attached', 'detached', 'trailing', 'detached+attached', 'attached-general', 'attached-multiline-general']
+PLACEMENTS = ['none', 'none', 'attached', 'attached', 'detached', 'trailing', 'trailing-multi', 'detached+attached', 'attached-general', 'attached-multiline-general']
 
 
 class Doc:
@@ -27,6 +27,16 @@ class Doc:
         if kind == 'trailing':
             if self.lines and self.lines[-1].strip() and '//' not in self.lines[-1] and not self.lines[-1].rstrip().endswith('*/'):
                 self.lines[-1] += ' ' + self.comment()
+            return []
+        if kind == 'trailing-multi':
+            # a general comment that starts on the previous item's last line and ends one or two lines further down,
+            # possibly followed on its closing line by more comments: all of it trails the previous item
+            if self.lines and self.lines[-1].strip() and '//' not in self.lines[-1] and not self.lines[-1].rstrip().endswith('*/'):
+                self.n += 1
+                self.lines[-1] += f' /* t {self.n}'
+                if r.random() < 0.3: self.lines.append(indent + '   middle')
+                tail = r.choice(['', '', ' ' + self.comment(), ' ' + self.comment(True), ' ' + self.comment(True) + ' ' + self.comment()])
+                self.lines.append(indent + '   more */' + tail)
             return []
         if kind in ('detached', 'detached+attached'):
             for _ in range(r.randint(1, 2)): self.lines.append(indent + self.comment(r.random() < 0.3))
@@ -51,7 +61,7 @@ def gen_file(rng):
     # leading blank lines so that items fall on lines 1, 2, 3, ...
     for _ in range(r.choice([0, 0, 0, 1, 2])): d.lines.append('')
     k = r.choice(PLACEMENTS)
-    if k == 'trailing': k = 'none'
+    if k in ('trailing', 'trailing-multi'): k = 'none'
     exp = d.place(k)
     d.lines.append('package p')
     targets.append((('file',), exp, k))
@@ -81,7 +91,7 @@ def gen_file(rng):
             for si in range(r.randint(1, 3)):
                 if r.random() < 0.3: d.lines.append('')
                 k2 = r.choice(PLACEMENTS)
-                if si == 0 and k2 == 'trailing': k2 = 'none'
+                if si == 0 and k2 in ('trailing', 'trailing-multi'): k2 = 'none'
                 e2 = d.place(k2, '\t')
                 d.lines.append(f'\tc{di}_{si} = {si}')
                 targets.append((('spec', di, 'Const' if kw == 'const' else 'Variable', si), e2, k2))
@@ -92,7 +102,7 @@ def gen_file(rng):
             for fi in range(r.randint(1, 3)):
                 if r.random() < 0.3: d.lines.append('')
                 k2 = r.choice(PLACEMENTS)
-                if k2 == 'trailing': k2 = 'none'          # a field's own line-end comment is the trailing pattern here
+                if k2 in ('trailing', 'trailing-multi'): k2 = 'none'          # a field's own line-end comment is the trailing pattern here
                 e2 = d.place(k2, '\t')
                 line = f'\tf{fi} int'
                 tr = None
@@ -125,7 +135,7 @@ def line_of_item(text, path):
 def run(chk):
     rng = random.Random(chk.seed)
     n = 1500 if chk.tier == 'quick' else 30000
-    chk.rule = ('%d generated declaration sequences (package clause, func / var / const / type declarations, grouped specs, struct fields); before each item one of {none, attached group of 1-3 line or general comments, multi-line general comment, detached group, trailing comment on the previous line, detached+attached}, '
+    chk.rule = ('%d generated declaration sequences (package clause, func / var / const / type declarations, grouped specs, struct fields); before each item one of {none, attached group of 1-3 line or general comments, multi-line general comment, detached group, trailing comment on the previous line, multi-line trailing comment with further comments on its closing line, detached+attached}, '
                 'items starting at any line including 1-3, comments inside the previous function body; oracle: the documentation reported for each item = the expected group (A.6), struct fields also report the comment trailing them on their line.  non-trivial: files with at least two commented items; distinct by text.' % n)
     files = [gen_file(rng) for _ in range(n)]
     cases = [('file', t) for t, _ in files]
